@@ -149,6 +149,11 @@ def apply_op(u, op, unit):
 
 def walk_union(job):
     """DFS over all operation sequences up to `depth` on one union.  Returns the log (list of records)."""
+    with common.cpu_limit(1500):
+        return _walk_union(job)
+
+
+def _walk_union(job):
     kind, n_dim, n, seed, cls_name, unit, npm, depth, ops, roundtrip = job
     pts = pointset(kind, n_dim, n, seed)
     idx = {p.tobytes(): i + 1 for i, p in enumerate(pts)}
@@ -402,6 +407,11 @@ def project_object(b, idx, v0):
 
 def walk_object(spec):
     """Compute one bound object, then sample/reset/round-trip sequences with observations."""
+    with common.cpu_limit(400):
+        return _walk_object(spec)
+
+
+def _walk_object(spec):
     b, cpts, pool = make_object(spec)
     n_dim = spec['n_dim']
     idx = {np.ascontiguousarray(p).tobytes(): i + 1 for i, p in enumerate(cpts)}
@@ -467,6 +477,11 @@ def walk_object(spec):
 def many_members(job):
     """A union split until it has more than ten members, then written and read back (member groups are named
     bound_0 ... bound_12: name order is not index order)."""
+    with common.cpu_limit(400):
+        return _many_members(job)
+
+
+def _many_members(job):
     n_dim, n, seed, cls_name, unit = job
     pts = pointset('many', n_dim, n, seed)
     idx = {p.tobytes(): i + 1 for i, p in enumerate(pts)}
